@@ -125,12 +125,14 @@ func (j *jobs) GetLatest() (*Process, error) {
 func (j *jobs) GetFromCommandLine(s string) (*Process, error) {
 	j.mutex.Lock()
 	defer j.mutex.Unlock()
+	verifhook.Emit(j, "jobs.lookup.start", "")
 
 	for i := len(j.jobs) - 1; i >= 0; i-- {
 		if j._hasTerminated(i) {
 			continue
 		}
 		if strings.Contains(j.jobs[i].GetRaw(), s) {
+			verifhook.Emit(j, "jobs.bytext", s, int64(i+1), verifJobFid(j.jobs[i]))
 			return j.jobs[i], nil
 		}
 	}
